@@ -1,76 +1,292 @@
-"""Source facts for C18: h3-datagram/src/datagram.rs."""
+"""Source facts for C18: h3-datagram/src/datagram.rs and the call sites of Datagram::{new,encode,decode}.
+
+Two kinds of output:
+ * facts (constants the Coq model imports): the modulus of the assert in `new`, the divisor in `encode`, the multiplier
+   and the two error codes in `decode`, where the header bytes come from, the initial cursor, the SET of methods the
+   `Buf` impl defines, the number of places an EncodedDatagram is constructed, and whether the handlers of
+   datagram_handler.rs go through new/encode resp. decode + connection error;
+ * a text tie: the comment-free, whitespace-free text of every function the model mirrors (and of the call sites the
+   manifest names: h3-datagram's DatagramSender::send_datagram / DatagramReader::read_datagram / get_datagram_*,
+   h3-quinn's send_datagram / poll_incoming_datagram) and the item list of datagram.rs are compared with
+   translate/snapshots/GenDatagram.bodies.json.  Only the fact sites above and string literals are masked.  Any other
+   difference (an inserted statement, a new impl block, a second constructor, a reordered statement) is AnchorLost.
+   The three methods of the Buf impl are compared one by one, so their order in the block does not matter.
+
+python3 translate/gen_datagram.py --write-bodies   refreshes the snapshot from /repo (authoring time only).
+"""
+import json
+import os
 import re
-from rustsrc import Source, AnchorLost, parse_int
+from rustsrc import Source, AnchorLost, parse_int, match_close
 
 NAME = 'GenDatagram'
+BODIES_SNAPSHOT = os.path.join(os.path.dirname(os.path.abspath(__file__)), 'snapshots', 'GenDatagram.bodies.json')
 
 
-def extract(repo):
+def squash(t):
+    t = re.sub(r'"(?:[^"\\]|\\.)*"', '""', t)      # message texts are not facts
+    return re.sub(r'\s+', '', t)
+
+
+def sub_source(src, text):
+    s = Source.__new__(Source)
+    s.path, s.raw, s.text = src.path, text, text
+    return s
+
+
+def strip_attrs(t):
+    """remove #[...] / #![...] attributes (bracket matched)"""
+    out, i = [], 0
+    while i < len(t):
+        if t[i] == '#' and re.match(r'#!?\s*\[', t[i:]):
+            j = t.index('[', i)
+            i = match_close(t, j, '[', ']') + 1
+        else:
+            out.append(t[i])
+            i += 1
+    return ''.join(out)
+
+
+def top_items(text):
+    """depth-0 items of a file or of an impl/trait block: [(header text, block text or None)]"""
+    text = strip_attrs(text)
+    items, i, n = [], 0, len(text)
+    start = 0
+    depth = 0
+    while i < n:
+        c = text[i]
+        if c == '"':
+            i += 1
+            while i < n and text[i] != '"':
+                i += 2 if text[i] == '\\' else 1
+        elif c in '([':
+            depth += 1
+        elif c in ')]':
+            depth -= 1
+        elif c == ';' and depth == 0:
+            items.append((text[start:i].strip(), None))
+            start = i + 1
+        elif c == '{' and depth == 0:
+            j = match_close(text, i)
+            items.append((text[start:i].strip(), text[i + 1:j]))
+            i = j
+            start = j + 1
+        i += 1
+    if text[start:].strip():
+        raise AnchorLost('trailing text after the last item: ' + text[start:].strip()[:40])
+    return items
+
+
+def methods(block):
+    """{name: squashed text of the whole method (signature and body)} of an impl block"""
+    out = {}
+    for h, b in top_items(block):
+        m = re.search(r'\bfn\s+(\w+)', h)
+        if not m or b is None:
+            raise AnchorLost('unexpected item in impl block: ' + h[:40])
+        if m.group(1) in out:
+            raise AnchorLost('method defined twice: ' + m.group(1))
+        out[m.group(1)] = squash(h) + '{' + squash(b) + '}'
+    return out
+
+
+def impl_target(header):
+    """the type an impl block is for: text after `for`, else after `impl<..>` (header = raw text before the `{`)"""
+    m = re.search(r'\bfor\s+', header)
+    if m:
+        return squash(header[m.end():])
+    return squash(re.sub(r'^\s*(?:unsafe\s+)?impl\s*(?:<[^>]*>)?\s*', '', header))
+
+
+def datagram_rs(repo):
+    """-> (facts, texts, spans) of h3-datagram/src/datagram.rs"""
     src = Source(repo + '/h3-datagram/src/datagram.rs')
-    f, spans = {}, {}
-    body, spans['new'] = src.fn_body('new')
-    m = re.search(r'assert!\(\s*stream_id\.into_inner\(\)\s*%\s*(\d+)\s*==\s*0', body)
-    if not m:
-        raise AnchorLost('Datagram::new assert')
+    f, t, spans = {}, {}, {}
+    items = top_items(src.text)
+    listing = []
+    ctor_total, ctor_in_encode = 0, 0
+    seen_buf_impl = False
+    for h, b in items:
+        hs = squash(h)
+        if re.match(r'(?:pub(?:\s*\([^)]*\))?\s+)?use\b', h):
+            continue                                  # imports cannot change behaviour on their own
+        if b is None:
+            if hs:
+                listing.append(hs)
+            continue
+        if re.match(r'(?:unsafe\s+)?impl\b', h):
+            ms = methods(b)
+            listing.append(hs + ':' + ','.join(sorted(ms)))
+            if impl_target(h).startswith('EncodedDatagram'):
+                # a constructor written as Self { .. } inside an impl for EncodedDatagram
+                ctor_total += len(re.findall(r'(?<![\w])Self\{', squash(b)))
+            if re.match(r'impl<B>BufforEncodedDatagram<B>', hs):
+                if seen_buf_impl:
+                    raise AnchorLost('two Buf impls for EncodedDatagram')
+                seen_buf_impl = True
+                f['buf_methods_source_order'] = list(ms)
+                for k in ('remaining', 'chunk', 'advance'):
+                    if k not in ms:
+                        raise AnchorLost('Buf impl lacks ' + k)
+                for k in ms:
+                    # the three required methods one by one (their order in the block is irrelevant); an overridden
+                    # provided method shows up as a text the snapshot does not have
+                    t['EncodedDatagram::' + k] = ms[k]
+            elif re.match(r'impl<B>Datagram<B>whereB:Buf,$', hs):
+                for k in ('new', 'encode', 'decode'):
+                    if k not in ms:
+                        raise AnchorLost('Datagram::' + k)
+                t.update(datagram_methods(ms, f))
+                ctor_in_encode = len(re.findall(r'(?<![\w])EncodedDatagram\{', ms['encode']))
+        else:
+            # struct / enum / fn / trait / mod / macro: the whole text (field lists matter: the model's record mirrors them)
+            listing.append(hs + '{' + squash(strip_attrs(b)) + '}')
+    if not seen_buf_impl:
+        raise AnchorLost('impl Buf for EncodedDatagram')
+    ctor_total += len(re.findall(r'(?<![\w])EncodedDatagram(?:::<[^>]*>)?\{', squash(strip_attrs(src.text))))
+    f['encoded_datagram_constructors'] = ctor_total
+    f['constructor_in_encode'] = (ctor_in_encode == 1)
+    t['datagram.rs items'] = '\n'.join(listing)
+    for k in ('new', 'encode', 'decode'):
+        _, spans[k] = src.fn_body(k)
+    return f, t, spans
+
+
+def one(rx, text, what):
+    ms = list(re.finditer(rx, text))
+    if len(ms) != 1:
+        raise AnchorLost('%s: %d sites' % (what, len(ms)))
+    return ms[0]
+
+
+def datagram_methods(ms, f):
+    """masks the fact sites of new/encode/decode and reads the facts there"""
+    t = {}
+    new = ms['new']
+    m = one(r'assert!\(stream_id\.into_inner\(\)%(\d+)==0,', new, 'Datagram::new assert')
     f['new_modulus'] = int(m.group(1))
-    body, spans['encode'] = src.fn_body('encode')
-    m = re.search(r'let\s+varint\s*=\s*VarInt::from\(self\.stream_id\)\s*/\s*(\d+)\s*;', body)
-    if not m:
-        raise AnchorLost('encode divisor')
+    t['Datagram::new'] = new[:m.start(1)] + '_' + new[m.end(1):]
+    enc = ms['encode']
+    m = one(r'letvarint=VarInt::from\(self\.stream_id\)/(\d+);', enc, 'encode divisor')
     f['enc_divisor'] = int(m.group(1))
-    if not re.search(r'varint\.encode\(&mut\s+buffer\.as_mut_slice\(\)\)', body):
-        raise AnchorLost('encode into buffer')
-    m = re.search(r'EncodedDatagram\s*\{\s*stream_id:\s*([^,]+),\s*len:\s*([^,]+),\s*pos:\s*([^,]+),\s*payload:\s*([^,}]+)', body)
-    if not m:
-        raise AnchorLost('EncodedDatagram literal')
-    hdr, ln, pos, pl = [x.strip() for x in m.groups()]
+    enc = enc[:m.start(1)] + '_' + enc[m.end(1):]
+    m = one(r'EncodedDatagram\{stream_id:([^,]+),len:([^,]+),pos:([^,]+),payload:([^,}]+),?\}', enc, 'EncodedDatagram literal')
+    hdr, ln, pos, pl = m.groups()
     if hdr == 'buffer':
         f['header_is_buffer'] = True
     elif re.match(r'\[0;', hdr):
         f['header_is_buffer'] = False
     else:
         raise AnchorLost('header source ' + hdr)
-    if ln != 'varint.size()' or pl != 'self.payload':
-        raise AnchorLost('len/payload source')
     f['initial_pos'] = parse_int(pos)
-    body, spans['decode'] = src.fn_body('decode')
-    m = re.search(r'StreamId::try_from\(u64::from\(q_stream_id\)\s*\*\s*(\d+)\)', body)
-    if not m:
-        raise AnchorLost('decode multiplier')
+    t['Datagram::encode'] = enc[:m.start()] + 'EncodedDatagram{stream_id:_,len:%s,pos:_,payload:%s,}' % (ln, pl) + enc[m.end():]
+    dec = ms['decode']
+    m = one(r'StreamId::try_from\(u64::from\(q_stream_id\)\*(\d+)\)', dec, 'decode multiplier')
     f['dec_multiplier'] = int(m.group(1))
-    codes = re.findall(r'InternalConnectionError::new\(\s*Code::(\w+)', body)
-    if len(codes) != 2:
+    dec = dec[:m.start(1)] + '_' + dec[m.end(1):]
+    codes = re.findall(r'InternalConnectionError::new\(Code::(\w+)', dec)
+    if len(codes) != 2 or len(re.findall(r'Code::\w+', dec)) != 2:
         raise AnchorLost('decode error codes')
     f['dec_codes'] = codes
-    # the Buf impl of EncodedDatagram: which methods it defines (an added override of a provided method such as
-    # copy_to_bytes / has_remaining is a semantic change the three-method model cannot see) and their shape
-    blk, spans['impl_buf'], _m = src.item_block(r'impl<B>\s+Buf\s+for\s+EncodedDatagram<B>[^{]*')
-    f['buf_methods'] = re.findall(r'\bfn\s+(\w+)\s*\(', blk)
-    body, _ = src.fn_body('remaining', after=_m.start())
-    if not re.fullmatch(r'\s*self\.len\s*-\s*self\.pos\s*\+\s*self\.payload\.remaining\(\)\s*', body):
-        raise AnchorLost('EncodedDatagram::remaining body')
-    body, _ = src.fn_body('chunk', after=_m.start())
-    if not re.fullmatch(r'\s*if\s+self\.len\s*-\s*self\.pos\s*>\s*0\s*\{\s*&self\.stream_id\[self\.pos\.\.self\.len\]\s*\}\s*else\s*\{\s*self\.payload\.chunk\(\)\s*\}\s*', body):
-        raise AnchorLost('EncodedDatagram::chunk body')
-    body, _ = src.fn_body('advance', after=_m.start())
-    norm = re.sub(r'\s+', ' ', body).strip()
-    want = ('let remaining_header = self.len - self.pos; if remaining_header > 0 { let advanced = usize::min(cnt, remaining_header); '
-            'self.pos += advanced; cnt -= advanced; } self.payload.advance(cnt);')
-    if norm != want:
-        raise AnchorLost('EncodedDatagram::advance body')
+    t['Datagram::decode'] = re.sub(r'Code::\w+', 'Code::_', dec)
+    return t
+
+
+def call_sites(repo):
+    """-> (facts, texts) of the handlers that are the only callers of new/encode/decode"""
+    f, t = {}, {}
+    D = repo + '/h3-datagram/src/'
+    h = Source(D + 'datagram_handler.rs')
+    for key, name in (('DatagramSender::send_datagram', 'send_datagram'), ('DatagramReader::read_datagram', 'read_datagram')):
+        body, _ = h.fn_body(name)
+        t[key] = squash(body)
+    f['tx_path_new_encode'] = bool(re.fullmatch(
+        r'letencoded_datagram=Datagram::new\(self\.stream_id,data\);matchself\.handler\.send_datagram\(encoded_datagram\.encode\(\)\)\{.*\}',
+        t['DatagramSender::send_datagram']))
+    f['rx_error_is_connection_error'] = bool(re.search(
+        r'Ok\(datagram\)=>Datagram::decode\(datagram\)\.map_err\(\|err\|self\.handle_connection_error_on_stream\(err\)\),',
+        t['DatagramReader::read_datagram']))
+    # DatagramReader does not override CloseStream::handle_connection_error_on_stream
+    blocks = [(squash(hd), b) for hd, b in top_items(h.text) if b is not None and re.match(r'impl\b', hd) and re.search(r'\bCloseStream\s+for\b', hd)]
+    t['CloseStream impls in datagram_handler.rs'] = '|'.join(hd + '{' + squash(b) + '}' for hd, b in blocks)
+    for fn in ('server.rs', 'client.rs'):
+        s = Source(D + fn)
+        for name in ('get_datagram_sender', 'get_datagram_reader'):
+            body, _ = s.fn_body(name)
+            t['%s %s' % (fn, name)] = squash(body)
+    q = Source(D + 'quic_traits.rs')
+    blk, _, _ = q.item_block(r'pub\s+trait\s+SendDatagram<B:\s*Buf>\s*')
+    t['trait SendDatagram'] = squash(blk)
+    qn = Source(repo + '/h3-quinn/src/datagram.rs')
+    for name in ('send_datagram', 'poll_incoming_datagram', 'send_datagram_handler', 'recv_datagram_handler'):
+        body, _ = qn.fn_body(name)
+        t['h3-quinn ' + name] = squash(body)
+    return f, t
+
+
+def bodies(repo):
+    f, t, spans = datagram_rs(repo)
+    f2, t2 = call_sites(repo)
+    f.update(f2)
+    t.update(t2)
+    return f, t, spans
+
+
+def check_bodies(got):
+    try:
+        want = json.load(open(BODIES_SNAPSHOT))
+    except FileNotFoundError:
+        raise AnchorLost('no body snapshot ' + BODIES_SNAPSHOT)
+    diff = [k for k in sorted(set(got) | set(want)) if want.get(k) != got.get(k)]
+    if diff:
+        k = diff[0]
+        a, b = want.get(k) or '', got.get(k) or ''
+        i = 0
+        while i < min(len(a), len(b)) and a[i] == b[i]:
+            i += 1
+        raise AnchorLost('the text of %s is no longer the one the model was written from (`%s`: first difference at offset %d: '
+                         'snapshot `...%s` / now `...%s`)' % (', '.join('`%s`' % x for x in diff), k, i, a[max(0, i - 30):i + 50], b[max(0, i - 30):i + 50]))
+
+
+def extract(repo):
+    f, t, spans = bodies(repo)
+    check_bodies(t)
     return f, spans
 
 
+def b01(x):
+    return 'true' if x else 'false'
+
+
 def render(f):
-    L = ['(* GENERATED by translate/gen_datagram.py from h3-datagram/src/datagram.rs *)',
+    L = ['(* GENERATED by translate/gen_datagram.py from h3-datagram/src/datagram.rs (+ datagram_handler.rs call sites) *)',
          'From H3V Require Import Base.Bytes Gen.GenCodes.',
          'Definition new_modulus : N := %d.' % f['new_modulus'],
          'Definition enc_divisor : N := %d.' % f['enc_divisor'],
-         'Definition header_is_buffer : bool := %s.' % ('true' if f['header_is_buffer'] else 'false'),
+         'Definition header_is_buffer : bool := %s.' % b01(f['header_is_buffer']),
          'Definition initial_pos : N := %d.' % f['initial_pos'],
          'Definition dec_multiplier : N := %d.' % f['dec_multiplier'],
          'Definition dec_code_truncated : N := %s.' % f['dec_codes'][0],
          'Definition dec_code_range : N := %s.' % f['dec_codes'][1],
-         '(* 1 = remaining, 2 = chunk, 3 = advance; anything else is an overridden provided method, coded 99 *)',
-         'Definition buf_methods : list N := [%s].' % '; '.join({'remaining': '1', 'chunk': '2', 'advance': '3'}.get(m, '99') for m in f['buf_methods'])]
+         '(* the methods `impl Buf for EncodedDatagram` defines, in source order: 1 = remaining, 2 = chunk, 3 = advance; anything',
+         '   else is an overridden provided method, coded 99.  Only the SET matters (C18_buf_impl_shape). *)',
+         'Definition buf_methods : list N := [%s].' % '; '.join({'remaining': '1', 'chunk': '2', 'advance': '3'}.get(m, '99') for m in f['buf_methods_source_order']),
+         '(* places in datagram.rs where an EncodedDatagram value is built (struct literals, Self { } in its impls) *)',
+         'Definition encoded_datagram_constructors : N := %d.' % f['encoded_datagram_constructors'],
+         'Definition constructor_in_encode : bool := %s.' % b01(f['constructor_in_encode']),
+         '(* DatagramSender::send_datagram = handler.send_datagram(Datagram::new(self.stream_id, data).encode()) *)',
+         'Definition tx_path_new_encode : bool := %s.' % b01(f['tx_path_new_encode']),
+         '(* DatagramReader::read_datagram: Datagram::decode(d).map_err(|err| self.handle_connection_error_on_stream(err)) *)',
+         'Definition rx_error_is_connection_error : bool := %s.' % b01(f['rx_error_is_connection_error'])]
     return '\n'.join(L) + '\n'
+
+
+if __name__ == '__main__':
+    import sys
+    if sys.argv[1:2] == ['--write-bodies']:
+        repo = sys.argv[2] if len(sys.argv) > 2 else '/repo'
+        json.dump(bodies(repo)[1], open(BODIES_SNAPSHOT, 'w'), indent=1, sort_keys=True)
+    else:
+        repo = sys.argv[1] if len(sys.argv) > 1 else '/repo'
+        fx, _ = extract(repo)
+        print(render(fx))
